@@ -46,46 +46,44 @@ def _op_exprs(fn: ast.FunctionDef) -> Tuple[Set[str], Set[str]]:
 
 
 def compared_fields(fn: ast.FunctionDef) -> Dict[str, List[ast.AST]]:
-    """attr -> compare nodes where `<op1>.attr` is compared with `<op2>.attr`; 'type' for exact type comparison;
-    'isinstance' for the asymmetric form."""
-    A, B = _op_exprs(fn)
+    """attr -> compare nodes where the same field of two different operands is compared (`a.f == b.f`, `type(a) is type(b)`,
+    `tuple(a.params) != tuple(b.params)`); 'helper:<attr>' when the comparison is delegated to helper(a.f, b.f); 'isinstance' for the
+    asymmetric isinstance(a, type(b)).  Operands are recognised by shape (the two sides are the same expression over two different
+    names), not by how they were obtained, so a lock-step loop over zip(...) is read like an indexed walk."""
+    from ..boolform import _pair_field
+    import re as _re
     out: Dict[str, List[ast.AST]] = {}
 
-    def side(e: ast.AST) -> Optional[Tuple[str, str]]:
-        while isinstance(e, ast.Call) and isinstance(e.func, ast.Name) and e.func.id in ("tuple", "list") and len(e.args) == 1:
-            e = e.args[0]  # value-preserving container conversion
-        if isinstance(e, ast.Attribute):
-            t = norm(e.value)
-            if t in A:
-                return "a", e.attr
-            if t in B:
-                return "b", e.attr
-        if isinstance(e, ast.Call) and isinstance(e.func, ast.Name) and e.func.id == "type" and len(e.args) == 1:
-            t = norm(e.args[0])
-            if t in A:
-                return "a", "type"
-            if t in B:
-                return "b", "type"
-        return None
-
+    def field_of(pf: str) -> Optional[str]:
+        t = pf
+        while True:
+            m_ = _re.fullmatch(r"(tuple|list)\((.*)\)", t)
+            if not m_:
+                break
+            t = m_.group(2)
+        if _re.fullmatch(r"type\(@(\[.*\])?\)", t) or t.endswith(".__class__"):
+            return "type"
+        m_ = _re.fullmatch(r"@(\[.*\])?\.(\w+)", t)
+        return m_.group(2) if m_ else None
     for n in ast.walk(fn):
         if isinstance(n, ast.Compare):
             items = [n.left] + list(n.comparators)
             for x, y, op in zip(items, items[1:], n.ops):
-                sx, sy = side(x), side(y)
-                if sx and sy and sx[0] != sy[0] and sx[1] == sy[1] and isinstance(op, (ast.Eq, ast.NotEq, ast.Is, ast.IsNot)):
-                    out.setdefault(sx[1], []).append(n)
-        if isinstance(n, ast.Call) and isinstance(n.func, ast.Name) and n.func.id not in ("isinstance", "tuple", "list") and len(n.args) >= 2:
-            # comparison delegated to a helper: helper(a.F, b.F)
-            sx, sy = side(n.args[0]), side(n.args[1])
-            if sx and sy and sx[0] != sy[0] and sx[1] == sy[1]:
-                out.setdefault("helper:" + sx[1], []).append(n)
+                if isinstance(op, (ast.Eq, ast.NotEq, ast.Is, ast.IsNot)):
+                    pf = _pair_field(x, y)
+                    f = field_of(pf) if pf else None
+                    if f:
+                        out.setdefault(f, []).append(n)
+        if isinstance(n, ast.Call) and isinstance(n.func, ast.Name) and n.func.id not in ("isinstance", "tuple", "list", "zip", "type") and len(n.args) >= 2:
+            pf = _pair_field(n.args[0], n.args[1])
+            f = field_of(pf) if pf else None
+            if f:
+                out.setdefault("helper:" + f, []).append(n)
         if isinstance(n, ast.Call) and isinstance(n.func, ast.Name) and n.func.id == "isinstance" and len(n.args) == 2:
             x, y = n.args
-            if isinstance(y, ast.Call) and isinstance(y.func, ast.Name) and y.func.id == "type":
-                tx, ty = norm(x), norm(y.args[0])
-                if (tx in A and ty in B) or (tx in B and ty in A):
-                    out.setdefault("isinstance", []).append(n)
+            if isinstance(y, ast.Call) and isinstance(y.func, ast.Name) and y.func.id == "type" and len(y.args) == 1 and norm(x) != norm(y.args[0]) \
+                    and _pair_field(x, y.args[0]) is not None:
+                out.setdefault("isinstance", []).append(n)
     return out
 
 
@@ -219,6 +217,20 @@ def rule_cmp_multiedge(ctx: Ctx) -> None:
                  f"CNOT(a,b);CNOT(a,b)", func="circuit_is_isomorphic.edge_match", construct="edge_match: role pairs flattened")
     else:
         ctx.ok("cmp.multiedge", m, fn, what="edge_match compares each edge's role pair as a unit")
+    # the verdict is a full isomorphism of the two annotated DAGs — not a sub-graph match (a circuit plus idle registers would "equal" it)
+    ci_ = repo.anchor(CMP, "circuit_is_isomorphic")
+    verdicts = [r.value for r in ci_.body if isinstance(r, ast.Return) and r.value is not None]
+    if verdicts:
+        v_ = verdicts[-1]
+        names_ = {(call_attr(c) or getattr(c.func, "id", "")) for c in ast.walk(v_) if isinstance(c, ast.Call)}
+        if "is_isomorphic" in names_:
+            ctx.ok("cmp.multiedge", m, v_, what="verdict = is_isomorphic of the two DAGs")
+        elif names_ & {"subgraph_is_isomorphic", "subgraph_is_monomorphic", "could_be_isomorphic", "fast_could_be_isomorphic", "faster_could_be_isomorphic"}:
+            ctx.fail("cmp.multiedge", m, v_, f"circuit_is_isomorphic answers with `{short(v_)}`: a sub-graph (or a necessary-condition) match also holds "
+                     f"between a circuit and a strictly smaller / different one, so inequivalent circuits compare equal and the verdict is not symmetric",
+                     func="circuit_is_isomorphic", construct="circuit_is_isomorphic: verdict is not a full isomorphism")
+        else:
+            raise AnalysisError(f"circuit_is_isomorphic: verdict `{short(v_)}` not recognised")
     ad = repo.anchor(CMP, "add_control_target_to_dag")
     ctx.touch(m, ad)
     env = {}
@@ -253,6 +265,18 @@ def rule_cmp_multiedge(ctx: Ctx) -> None:
                      func="add_control_target_to_dag", construct=f"add_control_target_to_dag: attribute {short(v, 60)}")
 
 
+def _step_loop(fn):
+    """the innermost loop of direct() that contains the `return False` of the per-step comparison (a while walk or a for over zip)"""
+    rets = [r for r in ast.walk(fn) if isinstance(r, ast.Return) and isinstance(r.value, ast.Constant) and r.value.value is False]
+    for r in rets:
+        p_ = parent(r)
+        while p_ is not None and p_ is not fn:
+            if isinstance(p_, (ast.While, ast.For)):
+                return p_
+            p_ = parent(p_)
+    raise AnalysisError("direct(): the lock-step walk was not found")
+
+
 def rule_cmp_every_step(ctx: Ctx) -> None:
     """cmp.every-step: direct() walks every register wire of both circuits in lock step and answers False at the first position where
     the two operations differ.  Every step of the walk must reach that comparison: a `continue` / early exit that skips it for some
@@ -261,16 +285,10 @@ def rule_cmp_every_step(ctx: Ctx) -> None:
     m = repo.module(CMP)
     fn = repo.anchor(CMP, "direct")
     ctx.touch(m, fn)
-    walks = [w for w in ast.walk(fn) if isinstance(w, ast.While)]
-    if len(walks) != 1:
-        raise AnalysisError("direct(): the wire walk (while loop) was not found")
-    w = walks[0]
-    # the comparison: an If inside the loop with a `return False` arm whose test looks at both operations
-    ops_ = [norm(a.targets[0]) for a in ast.walk(w) if isinstance(a, ast.Assign) and isinstance(a.value, ast.Subscript)
-            and isinstance(a.value.slice, ast.Constant) and a.value.slice.value == "op"]
+    w = _step_loop(fn)
     cmp_ifs = [i for i in ast.walk(w) if isinstance(i, ast.If) and any(isinstance(r, ast.Return) and isinstance(r.value, ast.Constant) and r.value.value is False
                                                                         for r in ast.walk(i))]
-    if len(ops_) < 2 or not cmp_ifs:
+    if not cmp_ifs:
         raise AnalysisError("direct(): the per-step comparison was not found")
     target = cmp_ifs[0]
     ok = flow.must_pass(w.body, lambda node: node is target.test)
@@ -343,9 +361,7 @@ def rule_cmp_decision(ctx: Ctx) -> None:
     # ---- direct(): per-step comparison
     fn = repo.anchor(CMP, "direct")
     ctx.touch(m, fn)
-    w = next((x for x in ast.walk(fn) if isinstance(x, ast.While)), None)
-    if w is None:
-        raise AnalysisError("direct(): wire walk not found")
+    w = _step_loop(fn)
     tb = Table()
     try:
         run = tb.outcomes([s_ for s_ in w.body if not isinstance(s_, (ast.For, ast.While))])
@@ -391,9 +407,7 @@ def rule_cmp_walk_edge(ctx: Ctx) -> None:
     repo = ctx.repo
     m = repo.module(CMP)
     fn = repo.anchor(CMP, "direct")
-    w = next((x for x in ast.walk(fn) if isinstance(x, ast.While)), None)
-    if w is None:
-        raise AnalysisError("direct(): wire walk not found")
+    w = _step_loop(fn)
     # the walked register's key: a local built as an f-string of the Input operation's reg_type and register
     regnames = {a.targets[0].id for a in ast.walk(fn) if isinstance(a, ast.Assign) and len(a.targets) == 1 and isinstance(a.targets[0], ast.Name)
                 and isinstance(a.value, ast.JoinedStr) and "reg_type" in norm(a.value) and "register" in norm(a.value)}
@@ -550,6 +564,7 @@ def run(ctx: Ctx) -> None:
     _memo.rule_elim_no_pivot(ctx, ['graphiq/utils/circuit_comparison.py'])
     _memo.rule_subject_drift(ctx, ['graphiq/utils/circuit_comparison.py'])
     _memo.rule_isinstance_on_class(ctx, ['graphiq/utils/circuit_comparison.py'])
+    _memo.rule_zip_truncation(ctx, ['graphiq/utils/circuit_comparison.py'])
     from .c12 import rule_nodekeys
     rule_nodekeys(ctx)  # the label index these functions query (wrapper / identity / gate labels) is maintained by add/remove/replace
     rule_cmp_fields(ctx)
@@ -563,7 +578,21 @@ def run(ctx: Ctx) -> None:
     ctx.floor("cmp.normalise", 5)
 
 
+def _edit_direct_zip(src: str) -> str:
+    """direct()'s indexed walk replaced by a zip over two per-wire generators that leave out the Output node"""
+    a = src.index("            node1 = in_node\n            node2 = in_node\n")
+    b = src.index("                control_match = (\n", a)
+    new_head = ("            for op1, op2 in zip(_wire_ops(circuit1, in_node), _wire_ops(circuit2, in_node)):\n")
+    out = src[:a] + new_head + src[b:]
+    out += ("\n\ndef _wire_ops(circuit, in_node):\n    op = circuit.dag.nodes[in_node][\"op\"]\n    reg = f\"{op.reg_type}{op.register}\"\n    node = in_node\n"
+            "    while True:\n        node = circuit.edge_from_reg(circuit.dag.out_edges(node, keys=True), reg)[1]\n        if node == f\"{reg}_out\":\n            return\n"
+            "        yield circuit.dag.nodes[node][\"op\"]\n")
+    return out
+
+
 KNOCKOUTS = [
+    Knockout("isomorphism-replaced-by-subgraph-match", CMP, sub_once("    return is_isomorphic(\n        circuit1.dag, circuit2.dag, node_match=node_match, edge_match=edge_match\n    )", "    from networkx.algorithms.isomorphism import MultiDiGraphMatcher\n    return MultiDiGraphMatcher(circuit1.dag, circuit2.dag, node_match=node_match, edge_match=edge_match).subgraph_is_isomorphic()"), "cmp.multiedge", "not a full isomorphism"),
+    Knockout("direct-walk-over-zip", CMP, _edit_direct_zip, "zip.truncation", "direct"),
     Knockout("direct-params-compared-with-or", CMP, sub_once("                    and tuple(op1.params) == tuple(op2.params)\n", "                    or tuple(op1.params) == tuple(op2.params)\n"), "cmp.decision", "direct() step"),
     Knockout("node-match-type-polarity", CMP, sub_once("        if type(op1) != type(op2) or op1.q_registers_type != op2.q_registers_type:", "        if type(op1) == type(op2) or op1.q_registers_type != op2.q_registers_type:"), "cmp.decision", "node_match"),
     Knockout("node-match-control-and-target", CMP, sub_once("                op1.control_type != op2.control_type\n                or op1.target_type != op2.target_type", "                op1.control_type != op2.control_type\n                and op1.target_type != op2.target_type"), "cmp.decision", "node_match"),
